@@ -9,6 +9,7 @@ EXPL = ("C02 (fixing never harms) is decided by engine A: the clauses keep_if_ok
 
 def run(args):
     ck = standard_check('C02', args, 'proof', EXPL, CHAIN[:6], ['keep_if_ok', 'no_harm', 'shape'])
+    roundtrip_lemma(ck, args.tier, force_quick=True)      # the contrast that never drops is the one of the colour as read back from the returned spelling
     ck.assume('calculate_contrast_ratio(a,b) == CR(a,b) for 8-bit triples, finite, >= 1 (discharged by check C05, engines B+D)',
               'READ(rgbint_to_string t) = t and READ(format_color(t,f)) = t for all 2^24 t (discharged by check C06, engine D)',
               'Color.__init__ establishes: _rgb is None or an int triple in 0..255 (discharged by check C14)',
